@@ -164,6 +164,8 @@ pub struct Sim {
     pub counters: BTreeMap<String, u64>,
     pub start_ts: u64,
     pub start_seq: u32,
+    /// the next `call` runs with every address granting every authorisation (AuthVar::Everyone)
+    pub permissive_next: bool,
 }
 
 pub fn addr_bytes(a: &Address) -> [u8; 32] {
@@ -206,6 +208,7 @@ impl Sim {
             counters: BTreeMap::new(),
             start_ts: ts,
             start_seq: seq,
+            permissive_next: false,
         }
     }
 
@@ -234,6 +237,11 @@ impl Sim {
     /// Install exactly this authorisation forest (empty = nobody authorises
     /// anything).  Entries are single-use and refer to fresh principals only.
     pub fn set_auth(&mut self, entries: &[AuthEntry]) {
+        if self.permissive_next {
+            // AuthVar::Everyone: recording mode, every require_auth of this call is granted
+            self.env.mock_all_auths_allowing_non_root_auth();
+            return;
+        }
         let seq = self.seq();
         let mut out = Vec::with_capacity(entries.len());
         for e in entries {
@@ -387,6 +395,7 @@ impl Sim {
                         self.set_auth(auth);
                     } else {
                         self.count("F8.abort_completed_under_limit");
+                        self.permissive_next = false;
                         let events = self.drain_events();
                         let post = self.digest();
                         return CallResult {
@@ -410,6 +419,10 @@ impl Sim {
         }
         let events = self.drain_events();
         let post = self.digest();
+        if self.permissive_next {
+            self.permissive_next = false;
+            self.count("F7.everyone_permissive_call");
+        }
         CallResult {
             out,
             events,
